@@ -87,12 +87,14 @@ impl Template {
                                     declare_shortcut!("M", "R.m");
                                     declare_shortcut!("O", "R.r");
                                     w.set_var_on_top_scope_init("A", |w| {
-                                        write!(w, "{{")?;
-                                        for (index, (key, size)) in bmc.list_fields().enumerate() {
-                                            if index > 0 {
-                                                write!(w, ",")?;
+                                        // (no prototype: a field named `toString` must not find an inherited member)
+                                        write!(w, "{{__proto__:null")?;
+                                        for (key, size) in bmc.list_fields() {
+                                            if key == "__proto__" {
+                                                write!(w, ",[{}]:new Array({})", gen_lit_str(key), size)?;
+                                            } else {
+                                                write!(w, ",{}:new Array({})", gen_lit_str(key), size)?;
                                             }
-                                            write!(w, "{}:new Array({})", gen_lit_str(key), size)?;
                                         }
                                         write!(w, "}}")?;
                                         Ok(())
